@@ -384,6 +384,7 @@ class BuiltinMixin:
                 st.assume(n >= 0)
                 return [(st, VInt(n))]
             if isinstance(h, HODict):
+                self.od_access(st, v)
                 return [(st, VInt(h.n))]
             if isinstance(h, HDeque):
                 return [(st, VInt(z3.IntVal(len(h.items))))]
@@ -494,6 +495,10 @@ class BuiltinMixin:
 
     def b_iter(self, st, args, kwargs):
         (v,) = args
+        if isinstance(v, VRef) and isinstance(st.deref(v), HODict):
+            return self.odict_iter(st, v, "keys", "asc")
+        if isinstance(v, VConst) and isinstance(v.py, tuple) and v.py and v.py[0] == "odict-view":
+            return self.odict_iter(st, VRef(v.py[1]), v.py[2], "asc")
         items = self.concrete_items(st, v)
         if isinstance(v, VRef) and isinstance(st.deref(v), HIter):
             return [(st, v)]
@@ -1068,10 +1073,14 @@ class BuiltinMixin:
         return [(st, VConst(("odict-view", ref.addr, "items")))]
 
     def odict_reversed(self, st, ref, what):
-        """reversed(od / od.keys() / ...): a *lazy live view* in descending rank."""
+        return self.odict_iter(st, ref, what, "desc")
+
+    def odict_iter(self, st, ref, what, order):
+        """reversed(od / od.keys() / ...): a *lazy live view* in descending rank;
+        iter(...) the same in ascending rank."""
         self.od_access(st, ref)
         h = st.deref(ref)
-        seq = z3.Function("od_desc_" + what, z3.ArraySort(U, B), z3.ArraySort(U, U), z3.ArraySort(U, I), SeqU)(h.present, h.val, h.rank)
+        seq = z3.Function(f"od_{order}_" + what, z3.ArraySort(U, B), z3.ArraySort(U, U), z3.ArraySort(U, I), SeqU)(h.present, h.val, h.rank)
         st.assume(z3.Length(seq) == h.n)
         it = st.alloc(HIter(seq, z3.IntVal(0), live_of=ref.addr))
         st.ghost.setdefault("live_views", [])
